@@ -1,1 +1,735 @@
 //! Verification hooks: autoalloc (see verif/mod.rs).
+//!
+//! `VerifAutoAlloc` owns a real `AutoAllocState` and drives it through the production entry points
+//! `handle_message` / `perform_submits` / `do_periodic_update` of `server/autoalloc/process.rs`, in the
+//! same way as the three arms of the `select!` loop in `autoalloc_process` do. The environment of the
+//! autoallocator is supplied by the caller through `VerifEnv`:
+//!   * the batch system (`QueueHandler`: submit / status / remove),
+//!   * the scheduler's answer to the worker query (`override_worker_query`, called from
+//!     `compute_query_responses` right after the real `ServerRef::new_worker_query`),
+//!   * the monotonic clock (`mocked_now`, consulted by `common::utils::time::now_monotonic`).
+//!
+//! Nothing in here is compiled into a production build.
+use std::cell::RefCell;
+use std::future::Future;
+use std::path::PathBuf;
+use std::pin::Pin;
+use std::rc::Rc;
+use std::time::{Duration, Instant};
+
+use tako::control::{NewWorkerAllocationResponse, ServerRef, WorkerTypeQuery};
+use tako::gateway::{LostWorkerReason, MultiNodeAllocationResponse};
+use tako::internal::worker::configuration::OverviewConfiguration;
+use tako::resources::ResourceDescriptor;
+use tako::verif::server::VerifServer;
+use tako::worker::{ServerLostPolicy, WorkerConfiguration};
+use tako::{Map, WorkerId};
+use tokio::sync::mpsc::UnboundedReceiver;
+
+use crate::common::manager::info::{ManagerInfo, ManagerType};
+use crate::common::rpc::ResponseToken;
+use crate::common::utils::time::AbsoluteTime;
+use crate::server::autoalloc::verif_access::{
+    AllocationExternalStatus, AllocationStatusMap, AllocationSubmissionResult, AutoAllocMessage,
+    AutoAllocState, MAX_QUEUED_STATUS_ERROR_COUNT, MAX_RUNNING_STATUS_ERROR_COUNT,
+    MAX_SUBMISSION_FAILS, QueueHandler, RateLimiter, SUBMISSION_DELAYS, SubmitMode,
+    max_allocation_fails, verif_hooks,
+};
+use crate::server::autoalloc::{
+    Allocation, AllocationState, AutoAllocResult, LostWorkerDetails, QueueId, QueueInfo,
+    QueueParameters,
+};
+use crate::server::event::journal::EventStreamMessage;
+use crate::server::event::payload::EventPayload;
+use crate::server::event::streamer::EventStreamer;
+
+// ------------------------------------------------------------------------------------------------
+// Environment
+// ------------------------------------------------------------------------------------------------
+
+/// Result of one `QueueHandler::submit_allocation` call.
+#[derive(Debug, Clone, PartialEq, Eq)]
+pub enum VerifSubmit {
+    /// The batch system accepted the allocation and returned this id.
+    Ok(String),
+    /// The submission was rejected (`AllocationSubmissionResult::into_id` is `Err`, a directory exists).
+    Fail,
+    /// The allocation directory could not even be created (`submit_allocation` itself is `Err`).
+    Err,
+}
+
+/// Status reported by the batch system for one allocation.
+#[derive(Debug, Clone, Copy, PartialEq, Eq)]
+pub enum VerifStatus {
+    Queued,
+    Running,
+    Finished,
+    Failed,
+    /// The status of this allocation could not be determined (`Err` entry in the status map).
+    Error,
+    /// The allocation is absent from the status map.
+    Missing,
+}
+
+/// Scripted answer of `ServerRef::new_worker_query`.
+#[derive(Debug, Clone, Default, PartialEq, Eq)]
+pub struct VerifQueryResponse {
+    pub single_node_workers_per_query: Vec<u32>,
+    /// (worker_type, max_allocations, worker_per_allocation)
+    pub multi_node_allocations: Vec<(usize, u32, u32)>,
+}
+
+/// What the autoallocator asked the scheduler for one queue.
+#[derive(Debug, Clone, PartialEq)]
+pub struct VerifQuery {
+    pub partial: bool,
+    pub max_sn_workers: u32,
+    pub max_workers_per_allocation: u32,
+    pub time_limit: Option<Duration>,
+    pub min_utilization: f32,
+}
+
+/// The adversarial environment of the autoallocator.
+pub trait VerifEnv {
+    /// Milliseconds since the epoch of the mocked monotonic clock.
+    fn now_ms(&mut self) -> u64;
+    fn submit(&mut self, queue: QueueId, workers: u64) -> VerifSubmit;
+    /// `None` = the whole status call failed; otherwise one status per id, in the order of `ids`.
+    fn statuses(&mut self, queue: QueueId, ids: &[String]) -> Option<Vec<VerifStatus>>;
+    /// `true` = the removal succeeded.
+    fn remove(&mut self, queue: QueueId, id: &str) -> bool;
+    /// `None` = the query failed.
+    fn query(&mut self, queries: &[VerifQuery]) -> Option<VerifQueryResponse>;
+}
+
+pub type VerifEnvRef = Rc<RefCell<dyn VerifEnv>>;
+
+thread_local! {
+    static ENV: RefCell<Option<(VerifEnvRef, Instant)>> = const { RefCell::new(None) };
+}
+
+fn with_env<R>(f: impl FnOnce(&VerifEnvRef, Instant) -> R) -> Option<R> {
+    let env = ENV.with(|cell| cell.borrow().clone());
+    env.map(|(env, epoch)| f(&env, epoch))
+}
+
+/// Hook used by `common::utils::time::now_monotonic`.
+pub fn mocked_now() -> Option<Instant> {
+    with_env(|env, epoch| epoch + Duration::from_millis(env.borrow_mut().now_ms()))
+}
+
+/// Hook used by `compute_query_responses`: replaces the answer of the scheduler by the scripted one
+/// (when an environment is installed on this thread).
+pub fn override_worker_query(
+    queries: &[WorkerTypeQuery],
+    real: NewWorkerAllocationResponse,
+) -> anyhow::Result<NewWorkerAllocationResponse> {
+    let queries: Vec<VerifQuery> = queries
+        .iter()
+        .map(|q| VerifQuery {
+            partial: q.partial,
+            max_sn_workers: q.max_sn_workers,
+            max_workers_per_allocation: q.max_workers_per_allocation,
+            time_limit: q.time_limit,
+            min_utilization: q.min_utilization,
+        })
+        .collect();
+    match with_env(|env, _| env.borrow_mut().query(&queries)) {
+        None => Ok(real),
+        Some(None) => Err(anyhow::anyhow!("scripted worker query error")),
+        Some(Some(r)) => Ok(NewWorkerAllocationResponse {
+            single_node_workers_per_query: r.single_node_workers_per_query,
+            multi_node_allocations: r
+                .multi_node_allocations
+                .into_iter()
+                .map(
+                    |(worker_type, max_allocations, worker_per_allocation)| {
+                        MultiNodeAllocationResponse {
+                            worker_type,
+                            worker_per_allocation,
+                            max_allocations,
+                        }
+                    },
+                )
+                .collect(),
+        }),
+    }
+}
+
+// ------------------------------------------------------------------------------------------------
+// Scripted batch system
+// ------------------------------------------------------------------------------------------------
+
+struct ScriptedHandler {
+    queue_id: QueueId,
+    env: VerifEnvRef,
+}
+
+fn scripted_dir() -> PathBuf {
+    PathBuf::from("/nonexistent/hq-verif-autoalloc")
+}
+
+impl QueueHandler for ScriptedHandler {
+    fn submit_allocation(
+        &mut self,
+        queue_id: QueueId,
+        _queue_info: &QueueInfo,
+        worker_count: u64,
+        _mode: SubmitMode,
+    ) -> Pin<Box<dyn Future<Output = AutoAllocResult<AllocationSubmissionResult>>>> {
+        // The environment is consulted when the future runs (as the real handlers run their command then).
+        let env = self.env.clone();
+        Box::pin(async move {
+            let result = env.borrow_mut().submit(queue_id, worker_count);
+            match result {
+                VerifSubmit::Ok(id) => Ok(AllocationSubmissionResult::new(
+                    Ok(id),
+                    scripted_dir().into(),
+                )),
+                VerifSubmit::Fail => Ok(AllocationSubmissionResult::new(
+                    Err(anyhow::anyhow!("scripted submission failure")),
+                    scripted_dir().into(),
+                )),
+                VerifSubmit::Err => Err(anyhow::anyhow!("scripted directory failure")),
+            }
+        })
+    }
+
+    fn get_status_of_allocations(
+        &self,
+        allocations: &[&Allocation],
+    ) -> Pin<Box<dyn Future<Output = AutoAllocResult<AllocationStatusMap>>>> {
+        let ids: Vec<String> = allocations.iter().map(|a| a.id.clone()).collect();
+        let env = self.env.clone();
+        let queue_id = self.queue_id;
+        Box::pin(async move {
+            let result = env.borrow_mut().statuses(queue_id, &ids);
+            let Some(statuses) = result else {
+                return Err(anyhow::anyhow!("scripted status call failure"));
+            };
+            let mut map: AllocationStatusMap = Map::default();
+            for (id, status) in ids.into_iter().zip(statuses) {
+                let finished_at = AbsoluteTime::now();
+                let value = match status {
+                    VerifStatus::Queued => Ok(AllocationExternalStatus::Queued),
+                    VerifStatus::Running => Ok(AllocationExternalStatus::Running),
+                    VerifStatus::Finished => Ok(AllocationExternalStatus::Finished {
+                        started_at: None,
+                        finished_at,
+                    }),
+                    VerifStatus::Failed => Ok(AllocationExternalStatus::Failed {
+                        started_at: None,
+                        finished_at,
+                    }),
+                    VerifStatus::Error => Err(anyhow::anyhow!("scripted status error")),
+                    VerifStatus::Missing => continue,
+                };
+                map.insert(id, value);
+            }
+            Ok(map)
+        })
+    }
+
+    fn remove_allocation(
+        &self,
+        allocation: &Allocation,
+    ) -> Pin<Box<dyn Future<Output = AutoAllocResult<()>>>> {
+        let env = self.env.clone();
+        let queue_id = self.queue_id;
+        let allocation_id = allocation.id.clone();
+        Box::pin(async move {
+            let ok = env.borrow_mut().remove(queue_id, allocation_id.as_str());
+            if ok {
+                Ok(())
+            } else {
+                Err(anyhow::anyhow!("scripted removal failure"))
+            }
+        })
+    }
+}
+
+// ------------------------------------------------------------------------------------------------
+// Observations
+// ------------------------------------------------------------------------------------------------
+
+#[derive(Debug, Clone, PartialEq, Eq)]
+pub enum VerifEvent {
+    QueueCreated(QueueId),
+    QueueRemoved(QueueId),
+    AllocationQueued {
+        queue_id: QueueId,
+        allocation_id: String,
+        worker_count: u64,
+    },
+    AllocationStarted(QueueId, String),
+    AllocationFinished(QueueId, String),
+    /// Any other event (never emitted by the autoallocator).
+    Other,
+}
+
+#[derive(Debug, Clone, PartialEq, Eq)]
+pub enum VerifAllocState {
+    Queued {
+        status_error_count: u32,
+    },
+    Running {
+        connected: Vec<u32>,
+        disconnected: Vec<u32>,
+        status_error_count: u32,
+    },
+    Finished {
+        disconnected: Vec<u32>,
+    },
+    FinishedUnexpectedly {
+        connected: Vec<u32>,
+        disconnected: Vec<u32>,
+        failed: bool,
+    },
+}
+
+#[derive(Debug, Clone, PartialEq, Eq)]
+pub struct VerifAllocation {
+    pub id: String,
+    pub target_worker_count: u64,
+    pub state: VerifAllocState,
+}
+
+#[derive(Debug, Clone, PartialEq, Eq)]
+pub struct VerifLimiter {
+    pub delays_ms: Vec<u64>,
+    pub current_delay: usize,
+    /// Milliseconds since the mocked epoch.
+    pub last_submission_ms: Option<u64>,
+    pub allocation_fails: u64,
+    pub max_allocation_fails: u64,
+    pub submission_fails: u64,
+    pub max_submission_fails: u64,
+}
+
+#[derive(Debug, Clone, PartialEq, Eq)]
+pub struct VerifQueue {
+    pub id: QueueId,
+    pub active: bool,
+    pub backlog: u32,
+    pub max_workers_per_alloc: u32,
+    pub max_worker_count: Option<u32>,
+    pub has_worker_resources: bool,
+    /// Sorted by allocation id.
+    pub allocations: Vec<VerifAllocation>,
+    pub limiter: VerifLimiter,
+}
+
+#[derive(Debug, Clone, PartialEq, Eq)]
+pub struct VerifSnapshot {
+    /// Sorted by queue id.
+    pub queues: Vec<VerifQueue>,
+    /// `allocation_to_queue`, sorted by allocation id.
+    pub allocation_to_queue: Vec<(String, QueueId)>,
+    /// Queue ids in the iteration order of the queue map (the order `perform_submits` /
+    /// `do_periodic_update` will use).
+    pub queue_order: Vec<QueueId>,
+}
+
+#[derive(Debug, Clone, Copy, PartialEq, Eq)]
+pub enum VerifRemoveResult {
+    Ok,
+    NotFound,
+    HasRunning,
+    OtherError,
+}
+
+#[derive(Debug, Clone, PartialEq, Eq)]
+pub struct VerifConstants {
+    pub submission_delays_ms: Vec<u64>,
+    pub max_submission_fails: u64,
+    pub max_allocation_fails: u64,
+    pub max_queued_status_error_count: u32,
+    pub max_running_status_error_count: u32,
+}
+
+pub fn constants() -> VerifConstants {
+    VerifConstants {
+        submission_delays_ms: SUBMISSION_DELAYS
+            .iter()
+            .map(|d| d.as_millis() as u64)
+            .collect(),
+        max_submission_fails: MAX_SUBMISSION_FAILS,
+        max_allocation_fails: max_allocation_fails(),
+        max_queued_status_error_count: MAX_QUEUED_STATUS_ERROR_COUNT,
+        max_running_status_error_count: MAX_RUNNING_STATUS_ERROR_COUNT,
+    }
+}
+
+#[derive(Debug, Clone)]
+pub struct VerifQueueParams {
+    pub pbs: bool,
+    pub backlog: u32,
+    pub max_workers_per_alloc: u32,
+    pub max_worker_count: Option<u32>,
+    /// `Some((delays_ms, max_submission_fails, max_allocation_fails))` replaces the rate limiter of the
+    /// new queue (as the unit tests of `process.rs` do); `None` keeps the production one.
+    pub limiter: Option<(Vec<u64>, u64, u64)>,
+    /// Explicit queue id (journal restore path).
+    pub queue_id: Option<QueueId>,
+}
+
+// ------------------------------------------------------------------------------------------------
+// Driver
+// ------------------------------------------------------------------------------------------------
+
+pub struct VerifAutoAlloc {
+    state: AutoAllocState,
+    server: ServerRef,
+    _verif_server: VerifServer,
+    events: EventStreamer,
+    receiver: UnboundedReceiver<EventStreamMessage>,
+    env: VerifEnvRef,
+    epoch: Instant,
+}
+
+impl Drop for VerifAutoAlloc {
+    fn drop(&mut self) {
+        ENV.with(|cell| *cell.borrow_mut() = None);
+    }
+}
+
+impl VerifAutoAlloc {
+    /// Installs `env` as the environment of this thread (one `VerifAutoAlloc` per thread at a time).
+    pub fn new(queue_id_initial_value: u32, env: VerifEnvRef) -> Self {
+        let epoch = Instant::now();
+        ENV.with(|cell| *cell.borrow_mut() = Some((env.clone(), epoch)));
+        let verif_server = VerifServer::new(
+            "verif".to_string(),
+            WorkerId::new(0),
+            Default::default(),
+        );
+        let server = verif_server.server_ref();
+        let (sender, receiver) = tokio::sync::mpsc::unbounded_channel();
+        VerifAutoAlloc {
+            state: AutoAllocState::new(queue_id_initial_value),
+            server,
+            _verif_server: verif_server,
+            events: EventStreamer::new(Some(sender)),
+            receiver,
+            env,
+            epoch,
+        }
+    }
+
+    async fn message(&mut self, message: AutoAllocMessage) -> bool {
+        verif_hooks::handle_message(&mut self.state, &self.events, message).await
+    }
+
+    /// `AutoAllocMessage::AddQueue`. Returns (schedule flag, queue id).
+    pub async fn add_queue(&mut self, p: VerifQueueParams) -> (bool, Option<QueueId>) {
+        let params = QueueParameters {
+            manager: if p.pbs {
+                ManagerType::Pbs
+            } else {
+                ManagerType::Slurm
+            },
+            max_workers_per_alloc: p.max_workers_per_alloc,
+            backlog: p.backlog,
+            timelimit: Duration::from_secs(3600),
+            name: Some("verif".to_string()),
+            max_worker_count: p.max_worker_count,
+            min_utilization: 0.0,
+            additional_args: vec![],
+            worker_start_cmd: None,
+            worker_stop_cmd: None,
+            worker_wrap_cmd: None,
+            cli_resource_descriptor: None,
+            worker_args: vec![],
+            idle_timeout: None,
+        };
+        let (token, mut rx) = ResponseToken::new();
+        let schedule = self
+            .message(AutoAllocMessage::AddQueue {
+                server_directory: scripted_dir(),
+                params,
+                queue_id: p.queue_id,
+                worker_resources: None,
+                response: token,
+            })
+            .await;
+        let id = rx.try_recv().ok().and_then(|r| r.ok());
+        if let Some(id) = id {
+            let queue = self.state.get_queue_mut(id).unwrap();
+            queue.verif_set_handler(Box::new(ScriptedHandler {
+                queue_id: id,
+                env: self.env.clone(),
+            }));
+            if let Some((delays, max_submission_fails, max_allocation_fails)) = p.limiter {
+                *queue.limiter_mut() = RateLimiter::new(
+                    delays.into_iter().map(Duration::from_millis).collect(),
+                    max_submission_fails,
+                    max_allocation_fails,
+                );
+            }
+        }
+        (schedule, id)
+    }
+
+    fn manager_info(allocation_id: &str) -> ManagerInfo {
+        ManagerInfo {
+            manager: ManagerType::Slurm,
+            allocation_id: allocation_id.to_string(),
+            time_limit: None,
+            max_memory_mb: None,
+        }
+    }
+
+    /// `AutoAllocMessage::WorkerConnected`
+    pub async fn worker_connected(&mut self, worker: u32, allocation_id: &str) -> bool {
+        let config = WorkerConfiguration {
+            resources: ResourceDescriptor::simple_cpus(4),
+            listen_address: String::new(),
+            hostname: "verif".to_string(),
+            group: "default".to_string(),
+            work_dir: scripted_dir(),
+            heartbeat_interval: Duration::from_secs(8),
+            overview_configuration: OverviewConfiguration::disabled(),
+            idle_timeout: None,
+            time_limit: None,
+            retract_check_interval: Duration::from_secs(1),
+            on_server_lost: ServerLostPolicy::Stop,
+            min_utilization: 0.0,
+            extra: Default::default(),
+        };
+        self.message(AutoAllocMessage::WorkerConnected {
+            id: WorkerId::new(worker),
+            config,
+            manager_info: Self::manager_info(allocation_id),
+        })
+        .await
+    }
+
+    /// `AutoAllocMessage::WorkerLost`
+    pub async fn worker_lost(
+        &mut self,
+        worker: u32,
+        allocation_id: &str,
+        reason: LostWorkerReason,
+        lifetime: Duration,
+    ) -> bool {
+        self.message(AutoAllocMessage::WorkerLost(
+            WorkerId::new(worker),
+            Self::manager_info(allocation_id),
+            LostWorkerDetails { reason, lifetime },
+        ))
+        .await
+    }
+
+    /// `AutoAllocMessage::JobSubmitted`
+    pub async fn job_submitted(&mut self, job: u32) -> bool {
+        self.message(AutoAllocMessage::JobSubmitted(tako::JobId::new(job)))
+            .await
+    }
+
+    /// `AutoAllocMessage::RemoveQueue`
+    pub async fn remove_queue(&mut self, id: QueueId, force: bool) -> (bool, VerifRemoveResult) {
+        let (token, mut rx) = ResponseToken::new();
+        let schedule = self
+            .message(AutoAllocMessage::RemoveQueue {
+                id,
+                force,
+                response: token,
+            })
+            .await;
+        let result = match rx.try_recv() {
+            Ok(Ok(())) => VerifRemoveResult::Ok,
+            Ok(Err(e)) => {
+                let text = e.to_string();
+                if text.contains("not found") {
+                    VerifRemoveResult::NotFound
+                } else if text.contains("running") {
+                    VerifRemoveResult::HasRunning
+                } else {
+                    VerifRemoveResult::OtherError
+                }
+            }
+            Err(_) => VerifRemoveResult::OtherError,
+        };
+        (schedule, result)
+    }
+
+    /// `AutoAllocMessage::PauseQueue`. Returns (schedule flag, queue found).
+    pub async fn pause_queue(&mut self, id: QueueId) -> (bool, bool) {
+        let (token, mut rx) = ResponseToken::new();
+        let schedule = self
+            .message(AutoAllocMessage::PauseQueue {
+                id,
+                response: token,
+            })
+            .await;
+        (schedule, matches!(rx.try_recv(), Ok(Ok(()))))
+    }
+
+    /// `AutoAllocMessage::ResumeQueue`. Returns (schedule flag, queue found).
+    pub async fn resume_queue(&mut self, id: QueueId) -> (bool, bool) {
+        let (token, mut rx) = ResponseToken::new();
+        let schedule = self
+            .message(AutoAllocMessage::ResumeQueue {
+                id,
+                response: token,
+            })
+            .await;
+        (schedule, matches!(rx.try_recv(), Ok(Ok(()))))
+    }
+
+    /// The `scheduling_interval` arm of `autoalloc_process`.
+    /// `None` = skipped (no active queue), `Some(ok)` = `perform_submits` ran and returned `ok`.
+    pub async fn scheduling_tick(&mut self) -> Option<bool> {
+        if self.state.has_active_queues() {
+            let result =
+                verif_hooks::perform_submits(&mut self.state, &self.server, &self.events).await;
+            Some(result.is_ok())
+        } else {
+            None
+        }
+    }
+
+    /// The `periodic_update_interval` arm of `autoalloc_process`. Returns whether the update ran.
+    pub async fn periodic_update(&mut self) -> bool {
+        if self.state.has_active_queues() {
+            verif_hooks::do_periodic_update(&mut self.state, &self.server, &self.events).await;
+            true
+        } else {
+            false
+        }
+    }
+
+    /// Events emitted since the last call, in emission order.
+    pub fn drain_events(&mut self) -> Vec<VerifEvent> {
+        let mut result = Vec::new();
+        while let Ok(message) = self.receiver.try_recv() {
+            if let EventStreamMessage::Event(event) = message {
+                result.push(match event.payload {
+                    EventPayload::AllocationQueueCreated(id, _) => VerifEvent::QueueCreated(id),
+                    EventPayload::AllocationQueueRemoved(id) => VerifEvent::QueueRemoved(id),
+                    EventPayload::AllocationQueued {
+                        queue_id,
+                        allocation_id,
+                        worker_count,
+                    } => VerifEvent::AllocationQueued {
+                        queue_id,
+                        allocation_id,
+                        worker_count,
+                    },
+                    EventPayload::AllocationStarted(q, a) => VerifEvent::AllocationStarted(q, a),
+                    EventPayload::AllocationFinished(q, a) => VerifEvent::AllocationFinished(q, a),
+                    _ => VerifEvent::Other,
+                });
+            } else {
+                result.push(VerifEvent::Other);
+            }
+        }
+        result
+    }
+
+    pub fn snapshot(&self) -> VerifSnapshot {
+        fn ids<'a>(workers: impl Iterator<Item = &'a WorkerId>) -> Vec<u32> {
+            let mut ids: Vec<u32> = workers.map(|w| w.as_num()).collect();
+            ids.sort_unstable();
+            ids
+        }
+        let queue_order: Vec<QueueId> = self.state.queues().map(|(id, _)| id).collect();
+        let mut queues: Vec<VerifQueue> = self
+            .state
+            .queues()
+            .map(|(id, queue)| {
+                let mut allocations: Vec<VerifAllocation> = queue
+                    .all_allocations()
+                    .map(|alloc| VerifAllocation {
+                        id: alloc.id.clone(),
+                        target_worker_count: alloc.target_worker_count,
+                        state: match &alloc.status {
+                            AllocationState::Queued { status_error_count } => {
+                                VerifAllocState::Queued {
+                                    status_error_count: *status_error_count,
+                                }
+                            }
+                            AllocationState::Running {
+                                connected_workers,
+                                disconnected_workers,
+                                status_error_count,
+                                ..
+                            } => VerifAllocState::Running {
+                                connected: ids(connected_workers.iter()),
+                                disconnected: ids(
+                                    disconnected_workers
+                                        .clone()
+                                        .into_iter()
+                                        .map(|(w, _)| w)
+                                        .collect::<Vec<_>>()
+                                        .iter(),
+                                ),
+                                status_error_count: *status_error_count,
+                            },
+                            AllocationState::Finished {
+                                disconnected_workers,
+                                ..
+                            } => VerifAllocState::Finished {
+                                disconnected: ids(
+                                    disconnected_workers
+                                        .clone()
+                                        .into_iter()
+                                        .map(|(w, _)| w)
+                                        .collect::<Vec<_>>()
+                                        .iter(),
+                                ),
+                            },
+                            AllocationState::FinishedUnexpectedly {
+                                connected_workers,
+                                disconnected_workers,
+                                failed,
+                                ..
+                            } => VerifAllocState::FinishedUnexpectedly {
+                                connected: ids(connected_workers.iter()),
+                                disconnected: ids(
+                                    disconnected_workers
+                                        .clone()
+                                        .into_iter()
+                                        .map(|(w, _)| w)
+                                        .collect::<Vec<_>>()
+                                        .iter(),
+                                ),
+                                failed: *failed,
+                            },
+                        },
+                    })
+                    .collect();
+                allocations.sort_by(|a, b| a.id.cmp(&b.id));
+                let (delays, current_delay, last, af, maf, sf, msf) =
+                    queue.limiter().verif_snapshot();
+                VerifQueue {
+                    id,
+                    active: queue.state().is_active(),
+                    backlog: queue.info().backlog(),
+                    max_workers_per_alloc: queue.info().max_workers_per_alloc(),
+                    max_worker_count: queue.info().max_worker_count(),
+                    has_worker_resources: queue.get_worker_resources().is_some(),
+                    allocations,
+                    limiter: VerifLimiter {
+                        delays_ms: delays.iter().map(|d| d.as_millis() as u64).collect(),
+                        current_delay,
+                        last_submission_ms: last
+                            .map(|t| t.saturating_duration_since(self.epoch).as_millis() as u64),
+                        allocation_fails: af,
+                        max_allocation_fails: maf,
+                        submission_fails: sf,
+                        max_submission_fails: msf,
+                    },
+                }
+            })
+            .collect();
+        queues.sort_by_key(|q| q.id);
+        let mut allocation_to_queue = self.state.verif_allocation_to_queue();
+        allocation_to_queue.sort();
+        VerifSnapshot {
+            queues,
+            allocation_to_queue,
+            queue_order,
+        }
+    }
+}
